@@ -174,7 +174,7 @@ def inputs_for(prop, tier):
             items.append({"kind": "read-fault", "pool": pool, "fails": fails})
         for i in range(24 if q else 240):
             items.append({"kind": "stress", "threads": rnd.choice([2, 3, 4]), "ops": rnd.choice([5, 6, 8]), "keys": rnd.choice([1, 2, 2]),
-                          "windows": 5 if q else 8, "pool": rnd.choice([0, 1, 1, 2, 4]), "cache": rnd.choice([1, 2, 256]),
+                          "windows": 5 if q else 8, "pool": rnd.choice([0, 1, 1, 2, 4]), "cache": rnd.choice([0, 1, 2, 256]),
                           "max_file": rnd.choice([0, 200, 30000, 30000]), "delay_us": rnd.choice([100, 400, 1500]), "merger": i % 4 != 0,
                           "clock": i % 3 == 1})
     elif prop == "C17":
